@@ -39,6 +39,11 @@ func NewQueue[T any]() *Queue[T] {
 
 // Len returns the total number of items in the queue
 func (q *Queue[T]) Len() int {
+	// both counters change under the write lock (Enqueue, Dequeue, Purge); reading them without
+	// the lock can pair a stale writeCount with a newer readCount and yield a negative length
+	q.mx.RLock()
+	defer q.mx.RUnlock()
+
 	writeCount := q.writeCount.Load()
 	readCount := q.readCount.Load()
 
